@@ -37,7 +37,7 @@ def post(ctx, rows, res, bindir):
     exe = mt.erg_cli(ctx)
     if not exe:
         return
-    n = 150 if ctx.tier == "thorough" else 25
+    n = 150 if ctx.tier == "thorough" else 15
     cand = [r for r in rows if r[2].startswith("(errs")]
     step = max(len(cand) // n, 1)
     picked = cand[::step][:n]
@@ -76,7 +76,7 @@ def run(ctx):
                        "top-level / method / lambda context; distinct by source text; non-trivial = a diagnostic or a procedure call present")
     ctx.assumptions = ["programs are lowered by the real front end (HIRBuilder with effect/ownership passes off); programs it rejects are declined",
                        "error kinds are told apart by their English main message (all are ErrorKind::HasEffect)"]
-    core.standard_check(ctx, harness_bin=HARNESS, n_quick=400, n_thorough=4000, nontrivial=nontrivial,
+    core.standard_check(ctx, harness_bin=HARNESS, n_quick=300, n_thorough=4000, nontrivial=nontrivial,
                         trusted=["HIR -> mini-HIR projection harness/src/minihir.rs (refuses with out-of-fragment on constructs without a constructor; rate in evidence)",
                                  "erg front end (parser, lowering, type inference) as the producer of the HIR"],
                         search_more=mt.make_search_more(HARNESS), shrink=mt.make_shrinker(HARNESS), post=post)
